@@ -240,7 +240,7 @@ def build(outdir, repo='/repo', sanitize=True, jobs=16, extra_cflags=()):
         rel, needs_int = TOOLS[name]
         exe = os.path.join(outdir, name)
         arch = ['-Wl,--start-group'] + ([int_a] if needs_int else []) + [lib_a, '-Wl,--end-group']
-        cmd = [CC] + link_san + ['-g', '-rdynamic', '-o', exe, groups['tools'][name]] + arch + SYS_LIBS
+        cmd = [CC] + link_san + ['-g', '-o', exe, groups['tools'][name]] + arch + SYS_LIBS
         rc, text = _run(cmd)
         return name, exe, cmd, rc, text
 
